@@ -29,6 +29,7 @@ void harness(void) {
   vg_b = in_gb;
   VP_PRE(REQ_m4ri_swap_bits(in_v));
   word r = m4ri_swap_bits(in_v);
+  VP_CANARY();
   VP_POST(ENS_m4ri_swap_bits(in_v, r));
 }
 #endif
@@ -40,6 +41,7 @@ void harness(void) {
   vg_b = in_gb;
   VP_PRE(REQ_m4ri_parity64(in_buf));
   word r = m4ri_parity64(in_buf);
+  VP_CANARY();
   VP_POST(ENS_m4ri_parity64(in_buf, r));
 }
 #endif
@@ -49,6 +51,7 @@ void harness(void) {
   VP_IN(word, in_a);
   VP_IN(word, in_b);
   int r = m4ri_lesser_LSB(in_a, in_b);
+  VP_CANARY();
   VP_POST(ENS_m4ri_lesser_LSB(in_a, in_b, r));
 }
 #endif
@@ -92,6 +95,7 @@ void harness(void) {
   VP_MKQ(in_Q, in_d, in_length, in_base);
   VP_PRE(REQ_m4ri_spread_bits(in_from, in_Q, in_length, in_base));
   word r = m4ri_spread_bits(in_from, in_Q, in_length, in_base);
+  VP_CANARY();
   VP_POST(ENS_m4ri_spread_bits(in_from, in_Q, in_length, in_base, r));
 }
 #endif
@@ -112,6 +116,7 @@ void harness(void) {
   VP_MKQ(in_Q, in_d, in_length, in_base);
   VP_PRE(REQ_m4ri_shrink_bits(in_from, in_Q, in_length, in_base));
   word r = m4ri_shrink_bits(in_from, in_Q, in_length, in_base);
+  VP_CANARY();
   VP_POST(ENS_m4ri_shrink_bits(in_from, in_Q, in_length, in_base, r));
 }
 #endif
@@ -210,6 +215,7 @@ void harness(void) {
   VP_IN(int, in_i);
   VP_PRE(REQ_m4ri_gray_code(in_i, in_l));
   int r = m4ri_gray_code(in_i, in_l);
+  VP_CANARY();
   VP_POST(ENS_m4ri_gray_code(in_i, in_l, r));
 }
 #endif
@@ -236,6 +242,7 @@ void harness(void) {
 #endif
   VP_PRE(REQ_m4ri_build_code(ord, inc, in_l));
   m4ri_build_code(ord, inc, in_l);
+  VP_CANARY();
   VP_POST(ENS1_m4ri_build_code(ord, inc, in_l));
   VP_POST(ENS2_m4ri_build_code(ord, inc, in_l));
   VP_POST(ENS3_m4ri_build_code(ord, inc, in_l));
